@@ -17,8 +17,12 @@ NOTES = ("Technique family: machine-checked proof in Lean 4. Every check = kerne
 
 import json, os, glob
 CHECKS = {}
-for _f in sorted(glob.glob(os.path.join(os.path.dirname(os.path.abspath(__file__)), "manifest.d", "C*.json"))):
-    CHECKS[os.path.basename(_f)[:-5]] = json.load(open(_f))
+# only checks the integrator has run on the unchanged tree are claimed (manifest.d/ENABLED)
+_dir = os.path.join(os.path.dirname(os.path.abspath(__file__)), "manifest.d")
+_enabled = open(os.path.join(_dir, "ENABLED")).read().split()
+for _f in sorted(glob.glob(os.path.join(_dir, "C*.json"))):
+    if os.path.basename(_f)[:-5] in _enabled:
+        CHECKS[os.path.basename(_f)[:-5]] = json.load(open(_f))
 NOT_APPLICABLE = {}
 for e in ENGINES:
     e["serves_properties"] = sorted(CHECKS.keys())
